@@ -82,6 +82,17 @@ PACKET = [
     H("c01_pk_lax_sliced_ip", "c01::packet", tier="thorough", unwind=5, timeout=7200, bounds="every byte string of length 0..=48, exact-size object", encodes=["LaxSlicedPacket::from_ip"]),
 ]
 
+READERS = [
+    H("c01_rd_ipv4", "c01::readers", unwind=4, bounds="std::io::Cursor over every byte string of length 0..=64", encodes=["Ipv4Header::read", "Ipv4Header::to_bytes"]),
+    H("c01_rd_ipv4_without_version", "c01::readers", unwind=4, bounds="every first byte x every byte string of length 0..=64", encodes=["Ipv4Header::read_without_version (version not checked: every first byte is legal)"]),
+    H("c01_rd_ipv6", "c01::readers", unwind=4, bounds="every byte string of length 0..=44, every version-rest nibble", encodes=["Ipv6Header::read", "Ipv6Header::read_without_version"]),
+    H("c01_rd_auth", "c01::readers", unwind=4, bounds="every byte string of length 0..=28", encodes=["IpAuthHeader::read"]),
+    H("c01_rd_raw_ext", "c01::readers", unwind=4, bounds="every byte string of length 0..=28", encodes=["Ipv6RawExtHeader::read"]),
+    H("c01_rd_frag_udp", "c01::readers", unwind=4, bounds="every byte string of length 0..=12", encodes=["Ipv6FragmentHeader::read", "UdpHeader::read"]),
+    H("c01_rd_tcp", "c01::readers", unwind=4, bounds="every byte string of length 0..=64", encodes=["TcpHeader::read"]),
+    H("c01_rd_icmp", "c01::readers", unwind=4, bounds="every byte string of length 0..=24", encodes=["Icmpv4Header::read", "Icmpv6Header::read"]),
+]
+
 # harnesses of other modules that run the same kind of decoder over an exact-size buffer; C01 / C02 read their
 # memory-safety / panic class results (DESIGN 2.2), the owning property reads its oracle assertions
 def _shared():
@@ -113,5 +124,5 @@ PROP = {
                "PacketHeaders / LaxPacketHeaders entry points exceed the 20 GB cap; their cursor code runs on plain arrays in the C03 / C05 "
                "glue harnesses, where CBMC still checks every unsafe precondition but not tightness)",
     "assumptions": [],
-    "harnesses": LINK + NET + TRANSPORT + SHARED + PACKET,
+    "harnesses": LINK + NET + TRANSPORT + READERS + SHARED + PACKET,
 }
